@@ -65,10 +65,17 @@ class C11(core.Prop):
                     filler += bufgen.spelling(rng, fm, {"quote": '"', "selfclose": "space"})
                 text = sp[:cut] + "".join(lsp) + filler
                 add("truncated", text, thr, rng.choice(["whole", "cuts", "blocks"]), late=[bufgen.view(x) for x in later])
+                if thr == 128:
+                    cases[-1]["front"] = [sp[:cut], "".join(lsp) + filler]
         for _ in range(100 * n):    # D
             msgs = [bufgen.valid_message(rng) for _ in range(rng.randint(1, 3))]
             text = "".join(bufgen.spelling(rng, m) + rng.choice(["", "\n", " "]) for m in msgs)
             add("valid", text, rng.choice([2048, None]), rng.choice(["whole", "cuts", "blocks"]))
+        # the hypothesis of corrupt_front_is_abandoned, evaluated by the model on the short truncations
+        idx = [i for i, c in enumerate(cases) if c.get("front")]
+        res, err = core.run_model("buffer", [["corrupt", c["front"]] for c in (cases[i] for i in idx)])
+        for i, r in zip(idx, res or []):
+            cases[i]["model_corrupt"] = bool(r[0]) and bool(r[1]) if isinstance(r, list) else None
         # every Latin-1 code point alone and after a '<'
         for cp in range(256):
             add("soup", "<" + chr(cp) + ">x", rng.choice([16, None]), "whole")
@@ -115,6 +122,12 @@ class C11(core.Prop):
         if obs["raised"]:
             return "raised: process() raised %s" % obs["raised"]
         text = "".join(c["pieces"])
+        # the one parser fact the junk theorems assume: an accepted text contains a known-tag opener
+        for s, code, _ in obs["table"]:
+            if code == 2 and not any(("<" + t) in s for t in obs["tags"]):
+                return "parser-fact: from_string accepted %r, which contains no known-tag opener" % s[:60]
+        if any("<" in t for t in obs["tags"]):
+            return "parser-fact: a registered tag contains '<'"
         delivered = []
         for k, o in enumerate(obs["pieces"]):
             for i, v in zip(o["ids"], o["views"]):
@@ -154,6 +167,8 @@ class C11(core.Prop):
         for c, o in zip(cases, obs):
             k = "%s/thr=%s" % (c["label"], c["thr"])
             h[k] = h.get(k, 0) + 1
+        h["truncations_checked_by_model"] = sum(1 for c in cases if "model_corrupt" in c)
+        h["truncations_model_says_corrupt"] = sum(1 for c in cases if c.get("model_corrupt"))
         h["messages_delivered"] = sum(len(p["ids"]) for o in obs if o.get("status") == "ok" for p in o["pieces"])
         h["parser_answers_recorded"] = sum(len(o.get("table", [])) for o in obs)
         return h
